@@ -2,6 +2,12 @@
   Driver ops of the text model (C07, C11).  Every string travels as an array
   of Unicode code points (the reply side of the line protocol is cut with
   Python's `splitlines`, which would break on a raw U+2028/U+0085).
+
+  Python's `int()` of the frequency column: the ops run the instance
+  `Text.pyInt`; an optional input field `"ints": [[cps, int | null], …]`
+  (Python-supplied `int(s)` per third-column string, `null` = `ValueError`)
+  takes precedence (`Text.intOfTable`) — needed only for non-ASCII digits.
+  `step = 0` and `n_jobs = 0` reply `{"err": "Raised:Value"}`.
 -/
 import PyndlDriver.Json
 import PyndlModel.Text
@@ -35,6 +41,21 @@ def asTEvent (container : String) (j : Json) : M TEvent := do
       pure ⟨← asCpsList c, ← asCpsList o⟩
   | _ => .error "event must be [cues, outcomes]"
 
+/-- the optional Python-supplied `int` table -/
+def getIntOf (j : Json) : M (Str → Option Int) :=
+  match getOpt j "ints" with
+  | none => pure pyInt
+  | some t => do
+    let a ← asArr t
+    let tbl ← a.toList.mapM (fun p => do
+      let q ← asArr p
+      match q.toList with
+      | [x, v] =>
+        let vv : Option Int ← (if v.isNull then pure none else do pure (some (← asInt v)))
+        pure ((← asCps x), vv)
+      | _ => .error "ints entry must be [cps, int | null]")
+    pure (intOfTable tbl)
+
 def valueErr : Json := Json.mkObj [("err", Json.str "Raised:Value")]
 
 def jCounter (c : Counter) : Json :=
@@ -62,11 +83,12 @@ def opTextRoundtrip (j : Json) : M Json := do
     | _, _ => renderFileWith (delim.getD [TAB]) (columns.getD defaultColumns) compatible es
   let start := getNatD j "start" 0
   let step := getNatD j "step" 1
-  let parsed := match parseFile start step content with
+  let intOf ← getIntOf j
+  let parsed := match parseFileWith intOf start step content with
     | some r => Json.mkObj [("events", jTEvents r)]
     | none => valueErr
   let parsed := match getNat j "count_jobs" with
-    | .ok n => parsed.setObjVal! "count" (jCO (cuesOutcomes n content))
+    | .ok n => parsed.setObjVal! "count" (jCO (cuesOutcomesWith intOf n content))
     | .error _ => parsed
   pure (parsed.setObjVal! "content" (jCps content))
 
@@ -80,20 +102,22 @@ def opTextParse (j : Json) : M Json := do
   let content ← getContent j
   let start := getNatD j "start" 0
   let step := getNatD j "step" 1
-  let parsed := match parseFile start step content with
+  let intOf ← getIntOf j
+  let parsed := match parseFileWith intOf start step content with
     | some r => Json.mkObj [("events", jTEvents r)]
     | none => valueErr
   match getNat j "count_jobs" with
-  | .ok n => pure ((parsed.setObjVal! "count" (jCO (cuesOutcomes n content))).setObjVal! "direct"
-                    (jCO (directCuesOutcomes content)))
+  | .ok n => pure ((parsed.setObjVal! "count" (jCO (cuesOutcomesWith intOf n content))).setObjVal! "direct"
+                    (jCO (directCuesOutcomesWith intOf content)))
   | .error _ => pure parsed
 
 /-- op text_count: `cues_outcomes(path, n_jobs=)` and the direct count -/
 def opTextCount (j : Json) : M Json := do
   let content ← getContent j
   let n ← getNat j "n_jobs"
-  pure (Json.mkObj [("strided", jCO (cuesOutcomes n content)),
-                    ("direct", jCO (directCuesOutcomes content))])
+  let intOf ← getIntOf j
+  pure (Json.mkObj [("strided", jCO (cuesOutcomesWith intOf n content)),
+                    ("direct", jCO (directCuesOutcomesWith intOf content))])
 
 def jWS : Option WS → Json
   | none => Json.mkObj [("err", Json.str "missing_lower")]
@@ -120,7 +144,11 @@ def opTextWords (j : Json) : M Json := do
       | .ok s => jNat (fileLines s).length
       | .error _ => Json.null
     | none => Json.null
-  pure (Json.mkObj [("strided", jWS (wordsSymbols lower n lines)),
+  let strided := match wordsSymbolsE lower n lines with
+    | .ok r => jWS (some r)
+    | .error .value => valueErr
+    | .error .missingLower => jWS none
+  pure (Json.mkObj [("strided", strided),
                     ("direct", jWS (directWordsSymbols lower lines)),
                     ("n_lines", nLines)])
 
